@@ -138,7 +138,7 @@ impl Client {
     }
 
     /// Sends one request, reads one framed response.
-    async fn exchange(&mut self, head: bool, target: &[u8], ae: Option<&[u8]>, range: Option<&[u8]>) -> std::io::Result<Reply> {
+    async fn exchange(&mut self, head: bool, target: &[u8], ae: Option<&[u8]>, range: Option<&[u8]>, ims: bool) -> std::io::Result<Reply> {
         use tokio::io::{AsyncReadExt, AsyncWriteExt};
         if self.stream.is_none() {
             self.connect().await?;
@@ -157,6 +157,9 @@ impl Client {
             req.extend_from_slice(b"Range: ");
             req.extend_from_slice(r);
             req.extend_from_slice(b"\r\n");
+        }
+        if ims {
+            req.extend_from_slice(b"If-Modified-Since: Fri, 01 Jan 2100 00:00:00 GMT\r\n");
         }
         req.extend_from_slice(b"\r\n");
         s.write_all(&req).await?;
@@ -272,6 +275,8 @@ struct Req {
     head: bool,
     ae: Option<&'static [u8]>,
     range: Option<Vec<u8>>,
+    /// `If-Modified-Since` far in the future (only used by the probe `range.ims`; conditional requests are not part of C09's model)
+    ims: bool,
 }
 
 /// Runs the history on a fresh host and one connection; a sentinel GET at the end checks the framing.
@@ -285,7 +290,7 @@ fn run_history(cfg: Cfg, body: &[u8], reqs: &[Req]) -> X {
         let mut client = Client { stream: None, desc, pending: Vec::new() };
         let mut out = Vec::new();
         for (i, q) in reqs.iter().enumerate() {
-            match client.exchange(q.head, target, q.ae, q.range.as_deref()).await {
+            match client.exchange(q.head, target, q.ae, q.range.as_deref(), q.ims).await {
                 Ok(r) => {
                     // framing of a GET reply: exactly content-length bytes were read; of every reply: the header is there
                     if r.content_length.is_none() {
@@ -296,7 +301,7 @@ fn run_history(cfg: Cfg, body: &[u8], reqs: &[Req]) -> X {
                 Err(e) => return fail(93, i, format!("{:?}: {}", e.kind(), e)),
             }
         }
-        match client.exchange(false, b"/s", None, None).await {
+        match client.exchange(false, b"/s", None, None, false).await {
             Ok(r) if r.status == 200 && r.body == SENTINEL && client.pending.is_empty() => {}
             Ok(r) => return fail(92, reqs.len(), format!("sentinel reply {} {:?}", r.status, String::from_utf8_lossy(&r.body))),
             Err(e) => return fail(92, reqs.len(), format!("sentinel {:?}: {}", e.kind(), e)),
@@ -343,7 +348,7 @@ fn conn(x: &X) -> X {
                 Some(v.to_vec())
             }
         };
-        reqs.push(Req { head: m == 1, ae, range });
+        reqs.push(Req { head: m == 1, ae, range, ims: false });
     }
     run_history(cfg, body, &reqs)
 }
@@ -359,7 +364,7 @@ fn repr(x: &X) -> X {
     };
     let mut out = Vec::new();
     for ae in 0..3u128 {
-        let r = run_history(cfg, body, &[Req { head: false, ae: ae_text(ae).unwrap(), range: None }]);
+        let r = run_history(cfg, body, &[Req { head: false, ae: ae_text(ae).unwrap(), range: None, ims: false }]);
         // (L (N 0) (L (L 200 (L) len (L [enc]) ar body)))
         let rep = r.as_l().filter(|l| l.len() == 2 && l[0] == X::N(0)).and_then(|l| l[1].as_l()).and_then(|l| l.first()).and_then(X::as_l);
         match rep {
@@ -370,10 +375,32 @@ fn repr(x: &X) -> X {
     X::L(out)
 }
 
+/// Probe outside the model: (L cfg body range) -> replies to [GET; GET + If-Modified-Since(future) + Range; GET + If-Modified-Since(future)]
+fn ims(x: &X) -> X {
+    let l = match x.as_l() {
+        Some(l) if l.len() == 3 => l,
+        _ => return X::bad(),
+    };
+    let (cfg, body, range) = match (parse_cfg(&l[0]), l[1].as_b(), l[2].as_b()) {
+        (Some(c), Some(b), Some(r)) => (c, b, r),
+        _ => return X::bad(),
+    };
+    run_history(
+        cfg,
+        body,
+        &[
+            Req { head: false, ae: None, range: None, ims: false },
+            Req { head: false, ae: None, range: Some(range.to_vec()), ims: true },
+            Req { head: false, ae: None, range: None, ims: true },
+        ],
+    )
+}
+
 pub fn dispatch(comp: &str, x: &X) -> Option<X> {
     Some(match comp {
         "range.conn" => conn(x),
         "range.repr" => repr(x),
+        "range.ims" => ims(x),
         _ => return None,
     })
 }
